@@ -536,7 +536,10 @@ class CatalogWriter(AbstractContextManager, HandlesDataChunk):
             raise ValueError(f"patch with ID {patch_id} contains no data")
 
         patch_ids = np.fromiter(self.writers.keys(), dtype=np.int16)
-        np.sort(patch_ids).tofile(self.cache_directory / PATCH_INFO_FILE)
+        # the file marks the catalog as complete, it must appear atomically
+        temp_file = self.cache_directory / (PATCH_INFO_FILE + ".tmp")
+        np.sort(patch_ids).tofile(temp_file)
+        temp_file.rename(self.cache_directory / PATCH_INFO_FILE)
 
 
 def write_patches_unthreaded(
